@@ -85,6 +85,17 @@ struct mutex_traits<vstd::shared_timed_mutex> {
 };
 
 inline long apply_f(long fid, long v) { return fid < 100 ? v * 16 + fid : fid; }
+// the pending flag without an event, whatever its type (instrumented atomic, or a plain bool after a change)
+template<class F>
+auto peek_flag(const F& f, int) -> decltype(f.vs_peek(), true)
+{
+    return f.vs_peek();
+}
+template<class F>
+bool peek_flag(const F& f, long)
+{
+    return static_cast<bool>(f);
+}
 // the plain functor of harness/deferred_drv.cpp
 inline long apply_plain(VPay& x, long fid)
 {
@@ -238,7 +249,7 @@ struct Inst: IInst {
     {
 #ifndef VS_NO_PEEK
         for (DG* dg : {&A, &B}) {
-            out.push_back({dg->m_obj.peek(), dg->m_pendingWrites.vs_peek() ? 1L : 0L, (long)dg->m_pendingList.m_obj.size(),
+            out.push_back({dg->m_obj.peek(), peek_flag(dg->m_pendingWrites, 0) ? 1L : 0L, (long)dg->m_pendingList.m_obj.size(),
                            dg->m_mutex.owner == -1 ? 1L : 0L, mutex_traits<M>::sharers(dg->m_mutex)});
         }
 #endif
